@@ -45,6 +45,9 @@ public:
     bool operator==(const type_t& o) const { return id == o.id; }
     bool operator!=(const type_t& o) const { return id != o.id; }
     static type_t create_primitive(kind_t k) { return type_t(1000 + (int)k); }
+    /* identities 3000..3999 are array types; the element type of array type i is identity i + 10000 */
+    bool is_array() const { return id >= 3000 && id < 4000; }
+    type_t get_sub() const { return type_t(id + 10000); }
 };
 class symbol_t
 {
@@ -114,6 +117,8 @@ public:
     T elems[VERIF_VEC_CAP];
     size_t n;
     vector(): n(0) {}
+    explicit vector(size_t k): n(k) { __CPROVER_assert(k <= VERIF_VEC_CAP, "stub: vector capacity (arity bound)"); }
+    void pop_back() { __CPROVER_assert(n > 0, "stub: pop_back() on a non-empty vector"); n--; }
     /* explicit copy operations: CBMC cannot synthesise them for a class with an array member */
     vector(const vector& o): n(o.n)
     {
@@ -164,6 +169,7 @@ public:
     size_t get_size() const;
     kind_t get_kind() const;
     type_t get_type() const;
+    void set_type(type_t);
     bool empty() const;
     const symbol_t get_symbol() const;
     expression_t& operator[](uint32_t);
